@@ -318,6 +318,50 @@ theorem set_roots_honest (s : CaState) (idx cidx : Nat) (rs : List ReqRoot) :
     obtain ⟨h1, h2, _⟩ := rootsCas_some s idx cidx rs rs' h
     simp [h1, h2]
 
+/-- **A refused or failed write leaves every CA table unchanged.**  Whatever the command, a result
+    `false` or an error means the state after the step is the state before it.  The leader's
+    rotation is "prepare the request (read roots and config, build the new lists); one conditional
+    write": with this theorem a rotation whose write is refused, fails, or loses its CAS to a
+    concurrent writer leaves the old root active and the old config in place.
+
+    ASSUMPTION made explicit: the *prepare* phase is pure with respect to the objects the store
+    hands out (the model's commands are the only way tables change).  Go returns pointers to the
+    live memdb rows from read-only queries, so this is an assumption about the code, not a
+    theorem; it is validated on every run by the harness: the store is sampled inside the
+    delegate's apply hook (request prepared, nothing committed) and after every manager operation
+    — with injected apply failures, refused writes and CAS losers — and every field of the root
+    and config rows must equal what the last applied command left
+    (`ca:…-outside-raft-apply`, `ca:store-has-N-active-roots`,
+    `ca:leader-signs-with-a-root-the-store-does-not-mark-active`). -/
+theorem refused_write_leaves_tables_unchanged (s : CaState) (idx : Nat) (cmd : CaCmd)
+    (h : (caStep s idx cmd).2 = .bool false ∨ ∃ e, (caStep s idx cmd).2 = .err e) :
+    (caStep s idx cmd).1 = s := by
+  cases cmd with
+  | setConfig c =>
+    simp only [caStep] at h ⊢
+    split
+    · split
+      · rename_i h1 h2; simp [h1, h2] at h
+      · rfl
+    · rename_i h1; simp [h1] at h
+  | setRoots cidx rs =>
+    simp only [caStep] at h ⊢
+    split <;> simp_all
+  | setProv id => simp [caStep] at h
+  | delProv id =>
+    simp only [caStep] at h ⊢
+    split <;> simp_all
+  | setBoth cidx rs c =>
+    simp only [caStep] at h ⊢
+    split
+    · rfl
+    · rfl
+    · split
+      · rename_i heq h2; simp [heq, h2] at h
+      · rfl
+  | incSerial => simp [caStep] at h
+  | invalid => rfl
+
 theorem one_active_root_step (s : CaState) (idx : Nat) (cmd : CaCmd) (h : RootsOK s) :
     RootsOK (caStep s idx cmd).1 := by
   rcases roots_replaced_atomically s idx cmd with ⟨h1, _⟩ | ⟨cidx, rs, _, _, hact, hr, _, _⟩
